@@ -134,7 +134,9 @@ func genTransfer(seed uint64, tier string) KScenario {
 		from := int64(r.Range(0, 3000))
 		sc.Net.Outages = append(sc.Net.Outages, WOutage{Dir: r.N(3), FromMS: from, ToMS: from + int64(r.Pick(50, 500, 2000, int(idle)-500, int(idle)+3000))})
 	}
+	lateConfirm := false
 	if len(sc.Net.Outages) == 0 && r.P(0.04) {
+		lateConfirm = true
 		// the server falls silent (for the client) between its handshake flight and HANDSHAKE_DONE, for longer than the
 		// handshake idle timeout but shorter than the idle timeout in force: the client, whose handshake is complete but not
 		// confirmed, must sit it out
@@ -175,6 +177,15 @@ func genTransfer(seed uint64, tier string) KScenario {
 			}
 		}
 		sc.Streams = append(sc.Streams, st)
+	}
+	if lateConfirm {
+		// the client has more to send than the congestion window holds while its handshake is complete but not confirmed
+		sc.Streams[0].From, sc.Streams[0].Size, sc.Streams[0].AtMS = 0, 200000, 0
+		// ... and the application keeps waking the connection up (new streams) before the first probe timeout
+		l := max(1, sc.Net.LatencyUS/1000)
+		for k := int64(1); k <= 6; k++ {
+			sc.Streams = append(sc.Streams, TStream{From: 0, Uni: true, Size: 1200, WChunk: int64(r.U64() >> 1), RBuf: int64(r.U64() >> 1), AtMS: 3*l + k*max(1, l/2)})
+		}
 	}
 	if r.P(0.15) {
 		// a short blackout of both directions that begins one to four round trips after a bulk stream starts on a connection
@@ -899,9 +910,11 @@ func judgeFailure(w *World, cfg *WConfig, netc *WNet, nExplicit int, res *KResul
 			}
 			if gap := time.Duration(w.starvedFor(side, now)); gap < idle-20*time.Millisecond {
 				res.Fail("idle timeout although undamaged datagrams kept arriving", "side %d: last good delivery %v before the failure, idle period %v", side, gap, idle)
-			} else if since, what := w.stoppedProbing(side, now); !handshake && since > idle/2+time.Second+6*time.Duration(netc.LatencyUS+netc.JitterUS)*time.Microsecond {
+			} else if since, what := w.stoppedProbing(side, now); !handshake && since > idle/2+time.Second+3*w.maxTransit() {
 				// Loss recovery never gives up before the idle timeout: with probe timeouts doubling from the last ack-eliciting
-				// transmission, the silence before the idle timer expires is shorter than half the idle period plus half a PTO.
+				// transmission, the silence before the idle timer expires is shorter than half the idle period plus half a PTO
+				// (a PTO is at most about three round trips of the slowest kind this run has seen: delayed datagrams inflate
+				// the smoothed RTT and its variance).
 				res.Fail("endpoint stopped retransmitting: its last ack-eliciting packets were lost and it stayed silent until the idle timeout", "side %d: nothing sent during the last %v of an idle period of %v, nothing received since; last datagram: %s", side, since, idle, what)
 			} else if !w.pathDeadEvidence(now, int64(evidenceWindow)) {
 				// nobody was prevented from talking: the endpoints fell silent with work left to do
@@ -1158,6 +1171,21 @@ func (w *World) stoppedProbing(side int, now int64) (time.Duration, string) {
 		what += p.String() + " "
 	}
 	return time.Duration(now - last.SentNS), what
+}
+
+// maxTransit: the longest time a datagram of this run took from send to (first) delivery.
+func (w *World) maxTransit() time.Duration {
+	w.mu.Lock()
+	defer w.mu.Unlock()
+	var m int64
+	for d := 0; d < 2; d++ {
+		for _, r := range w.Log[d] {
+			for _, at := range r.Delivered {
+				m = max(m, at-r.SentNS)
+			}
+		}
+	}
+	return time.Duration(m)
 }
 
 func (w *World) lastFaultNS() int64 {
